@@ -96,6 +96,15 @@ Theorem C12_simple_delta : forall c p ccs c' chs,
 Proof. exact simple_delta. Qed.
 Print Assumptions C12_simple_delta.
 
+(* "a simple change alters the voter set by at most one member" as sets *)
+Theorem C12_simple_delta_cases : forall c p ccs c' chs,
+  ValidB c p -> simple c p ccs = ROk (c', chs) ->
+  incoming c' = incoming c \/
+  (exists x, mem x (incoming c) = false /\ incoming c' = insert x (incoming c)) \/
+  (exists x, mem x (incoming c') = false /\ incoming c = insert x (incoming c')).
+Proof. exact simple_delta_cases. Qed.
+Print Assumptions C12_simple_delta_cases.
+
 Theorem C12_joint_shape : forall c p,
   ValidB c p ->
   (forall al ccs c' chs, enter_joint al c p ccs = ROk (c', chs) ->
